@@ -182,7 +182,7 @@ def split_conds(L, conds, to_expr):
 
 def extract_sites(f, L, name, cgen=None, tgen=None):
     body = f.need(name)
-    se = sym.SymExec(f, body, cgen=cgen or {}, tgen=tgen or {}, rename=gen_rename(f, name))
+    se = sym.SymExec(f, body, cgen=cgen or {}, tgen=tgen or {}, **gen_kw(f, name, cgen))
     paths = se.run()
     sites = {}
     for p in paths:
@@ -403,6 +403,19 @@ def gen_rename(f, key):
     return rn
 
 
+def gen_kw(f, key, cgen=None):
+    """engine options for analysing a generator on its own: canonical parameter names, and the parameters the roster
+    computes and hands in bound to those values (for the IN_CHECK instance being analysed)"""
+    kw = {"rename": gen_rename(f, key)}
+    N = names(f)
+    if key in N.generators.values():
+        ic = bool(cgen) and cgen.get("IN_CHECK") == TRUE
+        bound = N.gen_bound_params(key, ic)
+        if bound:
+            kw["params"] = bound
+    return kw
+
+
 def tparam(f):
     return names(f).slider_type_param
 
@@ -610,7 +623,7 @@ def check_king_generator(ctx, f, L):
         tag = "King/%s" % ("check" if in_check else "nocheck")
         cg = {"IN_CHECK": TRUE if in_check else FALSE}
         body = f.need(gen_key(f, "King"))
-        paths = sym.SymExec(f, body, cgen=cg, rename=gen_rename(f, body.key)).run()
+        paths = sym.SymExec(f, body, cgen=cg, **gen_kw(f, body.key, cg)).run()
         ctx.saw("%s [%s]: %d paths" % (body.key, tag, len(paths)))
         step_set = AND(("kingmoves", K), NOT(OWN))
         # (a) accumulation loop: paths that come back to the loop header
@@ -795,8 +808,11 @@ def check_roster(ctx, f, L):
             if kind is None:
                 continue
             flag = "true" if in_check else "false"
-            ok = flag in e.targs and e.args[0][0] == "ptr" and e.args[0][1] == ("P", "self") and e.args[1] == ("param", "mask") \
-                and e.args[2][0] == "ptr" and e.args[2][1] == ("P", "listener")
+            # the caller's board, mask and listener exactly once each; anything else handed in is a value the roster
+            # computed, which the generator analysis substitutes for that parameter
+            cls = [N._classify(a) for a in e.args]
+            wants_flag = "IN_CHECK" in f.bodies[e.name].j["generics"]
+            ok = (flag in e.targs or not wants_flag) and sorted(c for c in cls if c != "bound") == ["listener", "mask", "self"]
             ctx.check(ok, "roster:%s:args" % kind, "generator for %s is not called with (self, mask, listener) and the caller's IN_CHECK: %s %s"
                       % (kind, e.targs, [sym.show(a)[:40] for a in e.args]), loc(body, e.line))
             seen.append(kind)
@@ -840,10 +856,10 @@ def check_abort_contract(ctx, f, L):
         for piece in ("Pawn", "Knight", "Bishop", "Rook", "Queen", "King"):
             if piece in ("Pawn", "Knight", "King"):
                 body = f.need(gen_key(f, piece))
-                paths = sym.SymExec(f, body, cgen=cg, rename=gen_rename(f, body.key)).run()
+                paths = sym.SymExec(f, body, cgen=cg, **gen_kw(f, body.key, cg)).run()
             else:
                 body = f.need(slider_key(f))
-                paths = sym.SymExec(f, body, cgen=cg, tgen={tparam(f): slider_types(f)[piece]}, rename=gen_rename(f, body.key)).run()
+                paths = sym.SymExec(f, body, cgen=cg, tgen={tparam(f): slider_types(f)[piece]}, **gen_kw(f, body.key, cg)).run()
             tag = "%s/%s" % (piece, "check" if in_check else "nocheck")
             for p in paths:
                 ls = [e for e in p.events if is_listener_call(e)]
